@@ -22,6 +22,71 @@ fn handled(log: &Log, who: &str) -> Vec<(u32, u64)> {
 }
 
 /// send_after with the target stopping at `exit_ms` (None = stays alive) and the handle aborted at `abort_ms`
+/// Every timer of this file is armed either through the typed `ActorRef` or through a derived reference
+/// (`ActorRef::get_derived`, which has its own copies of send_after / send_interval): the unit decides.
+static DERIVED: std::sync::atomic::AtomicBool = std::sync::atomic::AtomicBool::new(false);
+fn derived() -> bool {
+    DERIVED.load(std::sync::atomic::Ordering::SeqCst)
+}
+/// wraps a body so that it runs with the given kind of reference
+fn with_ref(derived: bool, inner: vsched::Body) -> vsched::Body {
+    Arc::new(move || {
+        DERIVED.store(derived, std::sync::atomic::Ordering::SeqCst);
+        inner()
+    })
+}
+enum OneShot {
+    Typed(ractor::concurrency::JoinHandle<Result<(), ractor::MessagingErr<PMsg>>>),
+    Derived(ractor::concurrency::JoinHandle<Result<(), ractor::MessagingErr<DMsg>>>),
+}
+impl OneShot {
+    fn abort(&self) {
+        match self {
+            OneShot::Typed(h) => h.abort(),
+            OneShot::Derived(h) => h.abort(),
+        }
+    }
+    /// Ok(delivered) or Err(the task did not finish: aborted)
+    async fn outcome(self) -> Result<bool, ()> {
+        match self {
+            OneShot::Typed(h) => h.await.map(|r| r.is_ok()).map_err(|_| ()),
+            OneShot::Derived(h) => h.await.map(|r| r.is_ok()).map_err(|_| ()),
+        }
+    }
+}
+fn arm_after(a: &ractor::ActorRef<PMsg>, period: Duration, tag: u32) -> OneShot {
+    if derived() {
+        OneShot::Derived(a.get_derived::<DMsg>().send_after(period, move || DMsg(tag, vec![])))
+    } else {
+        OneShot::Typed(a.send_after(period, move || do_msg(tag, vec![])))
+    }
+}
+fn arm_interval(a: &ractor::ActorRef<PMsg>, period: Duration, burn_ns: u64) -> ractor::concurrency::JoinHandle<()> {
+    if derived() {
+        a.get_derived::<DMsg>().send_interval(period, move || {
+            if burn_ns > 0 {
+                vsched::burn(Duration::from_nanos(burn_ns));
+            }
+            DMsg(1, vec![])
+        })
+    } else {
+        a.send_interval(period, move || {
+            if burn_ns > 0 {
+                vsched::burn(Duration::from_nanos(burn_ns));
+            }
+            do_msg(1, vec![])
+        })
+    }
+}
+fn arm_exit(a: &ractor::ActorRef<PMsg>, period: Duration, kill: bool) -> ractor::concurrency::JoinHandle<()> {
+    match (derived(), kill) {
+        (false, true) => a.kill_after(period),
+        (false, false) => a.exit_after(period),
+        (true, true) => a.get_derived::<DMsg>().kill_after(period),
+        (true, false) => a.get_derived::<DMsg>().exit_after(period),
+    }
+}
+
 fn send_after_body(period_ms: u64, exit_ms: Option<u64>, abort_ms: Option<u64>, kill: bool) -> vsched::Body {
     send_after_body_us(period_ms * 1000, exit_ms.map(|e| e * 1000), abort_ms.map(|a| a * 1000), kill)
 }
@@ -39,7 +104,7 @@ fn send_after_body_us(period_us: u64, exit_us: Option<u64>, abort_us: Option<u64
             let log = Log::default();
             let (a, ah) = Actor::spawn(None, Probe, args("A", Prog::default(), &log)).await.expect("A");
             let t0 = vsched::now();
-            let h = a.send_after(Duration::from_micros(period_ms), || do_msg(1, vec![]));
+            let h = arm_after(&a, Duration::from_micros(period_ms), 1);
             // an unrelated task that becomes ready at the same instant (ties are explored)
             let a2 = a.clone();
             let tie = vsched::spawn("tie", async move {
@@ -66,9 +131,9 @@ fn send_after_body_us(period_us: u64, exit_us: Option<u64>, abort_us: Option<u64
                     }
                     h.abort();
                     aborted_at = Some(vsched::now() - t0);
-                    h.await.map_err(|_| "aborted".to_string()).map(|r| r.is_ok())
+                    h.outcome().await.map_err(|_| "aborted".to_string())
                 }
-                None => h.await.map_err(|_| "join-error".to_string()).map(|r| r.is_ok()),
+                None => h.outcome().await.map_err(|_| "join-error".to_string()),
             };
             let _ = tie.await;
             let _ = exiter.await;
@@ -141,13 +206,7 @@ fn interval_body_us(period_us: u64, burn: bool, exit_after_ticks: u64, kill: boo
             let (a, ah) = Actor::spawn(None, Probe, args("A", Prog::default(), &log)).await.expect("A");
             let t0 = vsched::now();
             let p = period_us * US;
-            let h = a.send_interval(Duration::from_micros(period_us), move || {
-                if burn {
-                    // building the message takes half a period of (virtual) time
-                    vsched::burn(Duration::from_nanos(period_us * US / 2));
-                }
-                do_msg(1, vec![])
-            });
+            let h = arm_interval(&a, Duration::from_micros(period_us), if burn { period_us * US / 2 } else { 0 });
             // stop the target in the middle of a period
             let exit_at = exit_after_ticks * p + p / 4;
             vsched::sleep(Duration::from_nanos(exit_at)).await;
@@ -205,8 +264,8 @@ fn timers_while_starting_body(period_ms: u64, start_half_periods: u64, total_tic
             }
             let status_when_armed = a.get_status();
             let t0 = vsched::now();
-            let h = a.send_interval(Duration::from_millis(period_ms), || do_msg(1, vec![]));
-            let once = a.send_after(Duration::from_millis(period_ms), || do_msg(2, vec![]));
+            let h = arm_interval(&a, Duration::from_millis(period_ms), 0);
+            let once = arm_after(&a, Duration::from_millis(period_ms), 2);
             let ah = outer.await.expect("outer").expect("A starts");
             let started_at = vsched::now() - t0;
             let exit_at = total_ticks * p + p / 4;
@@ -233,11 +292,42 @@ fn timers_while_starting_body(period_ms: u64, start_half_periods: u64, total_tic
             if ones != 1 {
                 bad.push(format!("a send_after armed while its target was starting delivered {ones} messages"));
             }
-            if !matches!(once.await, Ok(Ok(()))) {
+            if once.outcome().await != Ok(true) {
                 bad.push("the send_after handle does not report success".to_string());
             }
             h.abort();
             Outcome { key: format!("ticks={ts:?} once={ones}"), violations: bad }
+        })
+    })
+}
+
+/// a one-shot timer (and an interval) armed on a spawn_instant actor whose start-up task has not been polled:
+/// its mailbox already accepts messages, so the message is delivered once the actor runs, exactly once, and
+/// the handle reports success; `hold` yields keep the start-up task from running for a while after the expiry
+fn send_after_unstarted_body(period_ms: u64, hold: usize) -> vsched::Body {
+    Arc::new(move || {
+        Box::pin(async move {
+            let log = Log::default();
+            let (a, outer) = ractor::ActorRuntime::<Probe>::spawn_instant(None, Probe, args("A", Prog::default(), &log)).expect("instant A");
+            let armed_in = a.get_status();
+            let once = arm_after(&a, Duration::from_millis(period_ms), 2);
+            let res = once.outcome().await;
+            for _ in 0..hold {
+                vsched::yield_now().await;
+            }
+            let ah = outer.await.expect("outer").expect("A starts");
+            vsched::quiesce_time();
+            let n = handled(&log, "A").iter().filter(|x| x.0 == 2).count();
+            a.stop(None);
+            let _ = ah.await;
+            let mut bad = Vec::new();
+            if n != 1 {
+                bad.push(format!("send_after({period_ms} ms) armed on an actor that was {armed_in:?} (spawn_instant, start-up not yet run) delivered {n} messages"));
+            }
+            if res != Ok(true) {
+                bad.push(format!("its handle reports {res:?} although the target was alive all along"));
+            }
+            Outcome { key: format!("n={n} res={res:?} armed_in={armed_in:?}"), violations: bad }
         })
     })
 }
@@ -256,12 +346,12 @@ fn exit_kill_after_body_x(period_ms: u64, kill: bool, busy: bool, instant: bool)
             let (a, ah, h) = if instant {
                 let (a, outer) = ractor::ActorRuntime::<Probe>::spawn_linked_instant(None, Probe, args("A", Prog::default(), &log), s.get_cell()).expect("instant A");
                 // armed at once: the target is still Unstarted
-                let h = if kill { a.kill_after(Duration::from_millis(period_ms)) } else { a.exit_after(Duration::from_millis(period_ms)) };
+                let h = arm_exit(&a, Duration::from_millis(period_ms), kill);
                 let ah = outer.await.expect("outer").expect("A starts");
                 (a, ah, h)
             } else {
                 let (a, ah) = Actor::spawn_linked(None, Probe, args("A", Prog::default(), &log), s.get_cell()).await.expect("A");
-                let h = if kill { a.kill_after(Duration::from_millis(period_ms)) } else { a.exit_after(Duration::from_millis(period_ms)) };
+                let h = arm_exit(&a, Duration::from_millis(period_ms), kill);
                 (a, ah, h)
             };
             if busy {
@@ -335,7 +425,7 @@ fn exit_kill_abort_body(period_ms: u64, kill: bool) -> vsched::Body {
         Box::pin(async move {
             let log = Log::default();
             let (a, ah) = Actor::spawn(None, Probe, args("A", Prog::default(), &log)).await.expect("A");
-            let h = if kill { a.kill_after(Duration::from_millis(period_ms)) } else { a.exit_after(Duration::from_millis(period_ms)) };
+            let h = arm_exit(&a, Duration::from_millis(period_ms), kill);
             if period_ms > 0 {
                 vsched::sleep(Duration::from_nanos(period_ms * MS / 2)).await;
             }
@@ -358,55 +448,80 @@ fn exit_kill_abort_body(period_ms: u64, kill: bool) -> vsched::Body {
     })
 }
 
+/// registers a unit; with `dv` the same body runs with timers armed through a derived reference. The quick
+/// tier keeps the derived twin of the units that differ between the two implementations: live one-shots,
+/// exits around the expiry, intervals, and everything armed on a target that has not started yet
+fn mk(units: &mut Vec<Unit>, dv: bool, name: String, cfg: ExecCfg, bound: Option<usize>, body: vsched::Body) {
+    if dv {
+        let keep = THOROUGH.load(std::sync::atomic::Ordering::SeqCst)
+            || name.contains("/live") || name.contains("exit@") || name.starts_with("interval/") || name.contains("instant-target") || name.starts_with("while-starting") || name.contains("abort@0");
+        if !keep {
+            return;
+        }
+        units.push(Unit::explore(Job::new(format!("derived/{name}"), cfg, bound, with_ref(true, body))));
+    } else {
+        units.push(Unit::explore(Job::new(name, cfg, bound, with_ref(false, body))));
+    }
+}
+static THOROUGH: std::sync::atomic::AtomicBool = std::sync::atomic::AtomicBool::new(false);
+
 pub fn plan(tier: &str) -> Plan {
     let thorough = tier == "thorough";
+    THOROUGH.store(thorough, std::sync::atomic::Ordering::SeqCst);
     let cfg = ExecCfg::default();
     let bound = if thorough { 4 } else { 3 };
     let mut units = Vec::new();
+    // every unit once with the typed reference; in the thorough tier all of them again through a derived
+    // reference, in the quick tier a selection (see `mk`)
+    for dv in [false, true] {
     for period in [0u64, 1, 5] {
-        units.push(Unit::explore(Job::new(format!("send_after/{period}ms/live"), cfg.clone(), Some(bound), send_after_body(period, None, None, false))));
+        mk(&mut units, dv, format!("send_after/{period}ms/live"), cfg.clone(), Some(bound), send_after_body(period, None, None, false));
     }
     for (exit, kill) in [(4u64, false), (5, false), (6, false), (4, true), (5, true)] {
-        units.push(Unit::explore(Job::new(format!("send_after/5ms/exit@{exit}ms{}", if kill { "-kill" } else { "" }), cfg.clone(), Some(bound), send_after_body(5, Some(exit), None, kill))));
+        mk(&mut units, dv, format!("send_after/5ms/exit@{exit}ms{}", if kill { "-kill" } else { "" }), cfg.clone(), Some(bound), send_after_body(5, Some(exit), None, kill));
     }
     // zero and sub-millisecond periods: never early, and an abort before the timer task ran prevents delivery
     for period_us in [0u64, 1, 900, 1500] {
-        units.push(Unit::explore(Job::new(format!("send_after/{period_us}us/live"), cfg.clone(), Some(bound), send_after_body_us(period_us, None, None, false))));
-        units.push(Unit::explore(Job::new(format!("send_after/{period_us}us/abort@0"), cfg.clone(), Some(bound), send_after_body_us(period_us, None, Some(0), false))));
+        mk(&mut units, dv, format!("send_after/{period_us}us/live"), cfg.clone(), Some(bound), send_after_body_us(period_us, None, None, false));
+        mk(&mut units, dv, format!("send_after/{period_us}us/abort@0"), cfg.clone(), Some(bound), send_after_body_us(period_us, None, Some(0), false));
         if period_us > 1 {
-            units.push(Unit::explore(Job::new(format!("send_after/{period_us}us/abort@{}us", period_us / 2), cfg.clone(), Some(bound), send_after_body_us(period_us, None, Some(period_us / 2), false))));
-            units.push(Unit::explore(Job::new(format!("send_after/{period_us}us/exit@{}us", period_us / 2), cfg.clone(), Some(bound), send_after_body_us(period_us, Some(period_us / 2), None, false))));
+            mk(&mut units, dv, format!("send_after/{period_us}us/abort@{}us", period_us / 2), cfg.clone(), Some(bound), send_after_body_us(period_us, None, Some(period_us / 2), false));
+            mk(&mut units, dv, format!("send_after/{period_us}us/exit@{}us", period_us / 2), cfg.clone(), Some(bound), send_after_body_us(period_us, Some(period_us / 2), None, false));
         }
     }
     for ab in [0u64, 4, 5, 6] {
-        units.push(Unit::explore(Job::new(format!("send_after/5ms/abort@{ab}ms"), cfg.clone(), Some(bound), send_after_body(5, None, Some(ab), false))));
+        mk(&mut units, dv, format!("send_after/5ms/abort@{ab}ms"), cfg.clone(), Some(bound), send_after_body(5, None, Some(ab), false));
     }
     for (p, burn, ticks, kill) in [(1u64, false, 3u64, false), (5, true, 4, false), (5, true, 3, true), (1, true, 5, false)] {
-        units.push(Unit::explore(Job::new(
+        mk(&mut units, dv, 
             format!("interval/{p}ms/burn={burn}/{ticks}ticks{}", if kill { "-kill" } else { "" }),
             cfg.clone(),
             Some(bound),
             interval_body(p, burn, ticks, kill),
-        )));
+        );
     }
     for (p, kill, busy) in [(5u64, false, false), (5, true, false), (5, true, true), (5, false, true), (0, false, false), (1, true, false)] {
-        units.push(Unit::explore(Job::new(format!("{}/{p}ms/busy={busy}", if kill { "kill_after" } else { "exit_after" }), cfg.clone(), Some(bound), exit_kill_after_body(p, kill, busy))));
+        mk(&mut units, dv, format!("{}/{p}ms/busy={busy}", if kill { "kill_after" } else { "exit_after" }), cfg.clone(), Some(bound), exit_kill_after_body(p, kill, busy));
     }
     // sub-millisecond intervals: the k-th message still arrives at k periods
     for (p_us, burn, ticks) in [(200u64, false, 5u64), (500, true, 3), (999, false, 2), (1500, false, 3)] {
-        units.push(Unit::explore(Job::new(format!("interval/{p_us}us/burn={burn}/{ticks}ticks"), cfg.clone(), Some(bound), interval_body_us(p_us, burn, ticks, false))));
+        mk(&mut units, dv, format!("interval/{p_us}us/burn={burn}/{ticks}ticks"), cfg.clone(), Some(bound), interval_body_us(p_us, burn, ticks, false));
     }
     for (p, ticks) in [(1u64, 0u64), (1, 2), (5, 1), (5, 3)] {
-        units.push(Unit::explore(Job::new(format!("interval/{p}ms/abort-after-{ticks}ticks"), cfg.clone(), Some(bound), interval_abort_body(p, ticks))));
+        mk(&mut units, dv, format!("interval/{p}ms/abort-after-{ticks}ticks"), cfg.clone(), Some(bound), interval_abort_body(p, ticks));
     }
     for (p, kill) in [(0u64, false), (5, false), (5, true)] {
-        units.push(Unit::explore(Job::new(format!("{}/{p}ms/instant-target", if kill { "kill_after" } else { "exit_after" }), cfg.clone(), Some(bound), exit_kill_after_body_x(p, kill, false, true))));
+        mk(&mut units, dv, format!("{}/{p}ms/instant-target", if kill { "kill_after" } else { "exit_after" }), cfg.clone(), Some(bound), exit_kill_after_body_x(p, kill, false, true));
+    }
+    for (p, hold) in [(0u64, 0usize), (5, 0), (1, 3)] {
+        mk(&mut units, dv, format!("send_after/{p}ms/instant-target-hold{hold}"), cfg.clone(), Some(bound), send_after_unstarted_body(p, hold));
     }
     for (p, halves, ticks) in [(2u64, 7u64, 6u64), (1, 4, 3), (5, 1, 2)] {
-        units.push(Unit::explore(Job::new(format!("while-starting/{p}ms/startup-{halves}-half-periods/{ticks}ticks"), cfg.clone(), Some(bound), timers_while_starting_body(p, halves, ticks))));
+        mk(&mut units, dv, format!("while-starting/{p}ms/startup-{halves}-half-periods/{ticks}ticks"), cfg.clone(), Some(bound), timers_while_starting_body(p, halves, ticks));
     }
     for (p, kill) in [(0u64, false), (0, true), (1, false), (5, false), (5, true)] {
-        units.push(Unit::explore(Job::new(format!("{}/{p}ms/aborted", if kill { "kill_after" } else { "exit_after" }), cfg.clone(), Some(bound), exit_kill_abort_body(p, kill))));
+        mk(&mut units, dv, format!("{}/{p}ms/aborted", if kill { "kill_after" } else { "exit_after" }), cfg.clone(), Some(bound), exit_kill_abort_body(p, kill));
+    }
     }
     Plan {
         property: "C12",
